@@ -120,6 +120,64 @@ func CheckReduceSaturated(file string, m *big.Int) ([]Obligation, error) {
 		return o.list, nil
 	}
 	SRC := limbSum(src)
+	// second form: didReduce is the carry out of src + (2^256 - m) (instead of the complemented borrow of src - m)
+	if cid, isAtom := flag.p.singleAtom(); isAtom && in.atoms[cid].kind == "carry" && in.atoms[cid].node != nil && in.atoms[cid].node.kind == opAdd {
+		ch := chainEnding(in.atoms[cid].node)
+		good := true
+		switch {
+		case !ch.clean:
+			o.add("reduce-flag", "chain", stUndecided, ch.nodes[0].pos, ch.why)
+			good = false
+		case len(ch.nodes) != 4 || !ch.telescoped():
+			o.add("reduce-flag", "chain", stViolated, ch.nodes[0].pos, fmt.Sprintf("the carry chain deciding the flag covers %d limbs (or drops a carry), expected 4 linked limbs", len(ch.nodes)))
+			good = false
+		}
+		if good {
+			C := new(big.Int)
+			var vars []*Val
+			for k, nd := range ch.nodes {
+				cx, okx := nd.x.constant()
+				cy, oky := nd.y.constant()
+				switch {
+				case oky:
+					C.Add(C, new(big.Int).Mul(cy, powW(k)))
+					vars = append(vars, nd.x)
+				case okx:
+					C.Add(C, new(big.Int).Mul(cx, powW(k)))
+					vars = append(vars, nd.y)
+				default:
+					good = false
+				}
+			}
+			want := new(big.Int).Sub(powW(4), m)
+			if !good || C.Cmp(want) != 0 {
+				good = false
+				o.add("reduce-flag", "addend", stViolated, ch.nodes[0].pos, fmt.Sprintf("the constant added to src is %s, expected 2^256 - m = %s", hex(C), hex(want)))
+			} else if rs := pSub(limbSum(vars), SRC); !rs.isZero() {
+				good = false
+				d, _ := in.explain(rs)
+				o.add("reduce-flag", "augend", stViolated, ch.nodes[0].pos, "the other operand of the chain is not src: "+d)
+			}
+		}
+		if good {
+			o.ok("reduce-flag", "", "didReduce = carry out of the 4-limb chain src + (2^256 - m): all words in [0,W) => carry = [src + 2^256 - m >= 2^256] = [src >= m]")
+			DST := limbSum(dst)
+			if rs := pSub(DST, pSub(SRC, in.mul(flag.p, pInt(m)))); !rs.isZero() {
+				d, pos := in.explain(rs)
+				o.add("reduce-identity", "", stViolated, pos, "dst - (src - didReduce*m) != 0; "+d)
+			} else {
+				o.ok("reduce-identity", "", "dst = src + didReduce*(sum - src) limb-wise with sum = src + 2^256 - m - W^4*carry and carry*(1-carry) = 0: dst = src - didReduce*m as polynomials")
+			}
+			twoM := new(big.Int).Lsh(m, 1)
+			if twoM.Cmp(powW(4)) > 0 && m.Cmp(powW(4)) < 0 {
+				o.ok("range", "", fmt.Sprintf("2m = %s > 2^256 > src, so src - [src>=m]*m lies in [0,m): dst = src mod m", hex(twoM)))
+			} else {
+				o.add("range", "", stViolated, "", "2m <= 2^256: one conditional subtraction does not reduce every 256-bit value")
+			}
+		}
+		o.conclude(post)
+		return o.list, nil
+	}
 	id, single := pSub(pInt64(1), flag.p).singleAtom()
 	var b *atom
 	if single {
